@@ -16,7 +16,7 @@ META = {
                  '_get_schema_mismatches / the schema-change path of ResponseFuture + per-step correspondence with the real methods '
                  'under a virtual clock',
     'level_text': 'C43_mismatch_spec, C43_verdict, C43_verdict_sound, C43_keeps_polling, C43_false_only_after_budget, '
-                  'C43_terminates, C43_future_records, C43_future_never_overclaims proved for every script of polls '
+                  'C43_terminates, C43_future_records, C43_future_never_overclaims, C43_future_at_delivery, C43_rows_counted_by_endpoint proved for every script of polls '
                   '(snapshots, host states, timeouts, durations) of any length; the model is run side by side with the real '
                   'methods on generated scripts and on the exhaustive 2-peer snapshot space.',
     'level_note': 'Tie is correspondence (C), not translation: assurance is the weaker of proof and differential run. '
@@ -37,6 +37,15 @@ def gen_hosts(rng, v1):
             hosts[str(ep)] = 'down'
         elif r < 0.85:
             hosts[str(ep)] = 'none'
+    if not v1:
+        # peers_v2 only: nodes on a non-default native port (several nodes behind one address, mixed-port clusters); the same
+        # address may or may not also be known on the default port
+        for k in ('2:9043', '3:9043'):
+            r = rng.random()
+            if r < 0.25:
+                hosts[k] = rng.choice(['up', 'up', 'down', 'none'])
+                if rng.random() < 0.5:
+                    hosts.pop(k.split(':')[0], None)
     if v1 or rng.random() < 0.8:
         hosts['100'] = rng.choice(['up', 'up', 'down', 'none'])
     return hosts
@@ -49,6 +58,10 @@ def gen_snap(rng, agree_bias, hosts=None):
     peers = []
     for _ in range(n):
         ep = rng.choice([1, 2, 3, 3, 4, 100] if rng.random() < 0.2 else [1, 2, 3])
+        if hosts and rng.random() < 0.5:
+            alt = [k for k in hosts if ':' in k and k.split(':')[0] == str(ep)]
+            if alt:
+                ep = alt[0]
         if same:
             v = 1 if rng.random() < 0.9 else None
         else:
@@ -58,7 +71,7 @@ def gen_snap(rng, agree_bias, hosts=None):
     local = 'norow' if r < 0.07 else (None if r < 0.14 else (1 if same or rng.random() < 0.7 else 2))
     if not same and hosts and rng.random() < 0.75:
         # make the disagreement real: a counted peer reports a version the control node does not
-        live = [int(e) for e, st in hosts.items() if st != 'down']
+        live = [e if ':' in e else int(e) for e, st in hosts.items() if st != 'down']
         if live and len(peers) < 5:
             peers.insert(rng.randrange(len(peers) + 1), [rng.choice(live), 3 if local == 2 else 2])
             if local in ('norow', None) and rng.random() < 0.7:
